@@ -118,7 +118,193 @@ func TestGovcParagraphReplay(t *testing.T) {
 		check("after-links/"+p.name, wrap("<ul><li><a href=\"/a\">one</a></li><li><a href=\"/b\">two</a></li></ul>"+p.html+filler("fc")), []govcPara{p})
 		check("in-div/"+p.name, wrap("<div class=\"story\">"+p.html+"<ul><li>"+strings.Join(govcTok("fd", 20), " ")+"</li></ul></div>"+filler("fe")), []govcPara{p})
 	}
-	fmt.Printf("GOVC-CASES evaluations=%d distinct_nontrivial=%d rule=%s\n", evals, nontrivial, "12 simple-paragraph shapes (inline children, javascript: anchors, line breaks) x {alone, between paragraphs, after a link list, in a div} + all in one article; 60 unique tokens per paragraph; non-trivial = the paragraph was kept")
+
+	// ---- structural extremes (appended; the keys above are unchanged) ----
+	// The expected word set of every paragraph is read from the PARSED document (html.Parse, the parser the
+	// library uses), not from the source text: if the parser restructures an extreme document, the property is
+	// about the paragraphs of the tree that the distiller is given.
+	checkParsed := func(key, doc string) {
+		ps := govcC03ParsedParas(doc)
+		if len(ps) == 0 {
+			t.Errorf("GOVC-FAIL %s :: harness error: no paragraph in the parsed document", key)
+			return
+		}
+		check(key, doc, ps)
+	}
+	page := func(inner string) string {
+		return "<html><head><title>Replay page</title></head><body>" + inner + "</body></html>"
+	}
+	// (a) nesting depth of the paragraphs: chains of wrapper elements; six paragraph shapes with inline children
+	// zero to five levels below the paragraph sit together at the bottom of the chain
+	type wrapper struct {
+		name        string
+		open, close []string // one level = one entry, cycled
+	}
+	wrappers := []wrapper{
+		{"div", []string{"<div>"}, []string{"</div>"}},
+		{"section", []string{"<section>"}, []string{"</section>"}},
+		{"span", []string{"<span>"}, []string{"</span>"}},
+		{"mixed", []string{"<div class=\"c\">", "<section>", "<span>", "<article>", "<main>"}, []string{"</div>", "</section>", "</span>", "</article>", "</main>"}},
+		{"list", []string{"<ul>", "<li>"}, []string{"</ul>", "</li>"}},
+		{"blockquote", []string{"<blockquote>"}, []string{"</blockquote>"}},
+	}
+	depths := []int{1, 10, 100, 300, 505, 506, 507, 508, 509, 510, 511, 512, 513, 514, 515, 516, 600, 1000}
+	for _, wr := range wrappers {
+		for _, d := range depths {
+			var sb strings.Builder
+			for i := 0; i < d; i++ {
+				sb.WriteString(wr.open[i%len(wr.open)])
+			}
+			sb.WriteString(govcC03DeepParas(fmt.Sprintf("x%s%d", wr.name[:1], d)))
+			for i := d - 1; i >= 0; i-- {
+				sb.WriteString(wr.close[i%len(wr.close)])
+			}
+			checkParsed(fmt.Sprintf("deep/%s/%d", wr.name, d), page(sb.String()))
+		}
+	}
+	// (b) one document with a paragraph at every depth: <div><p>1</p><div><p>2</p><div>...; the inline children
+	// go three levels down, so every cut-off depth between 1 and the maximum hits some paragraph in the middle
+	for _, maxDepth := range []int{40, 1100} {
+		var sb strings.Builder
+		for d := 1; d <= maxDepth; d++ {
+			w := govcTok(fmt.Sprintf("st%04dw", d), 24)
+			sb.WriteString("<div><p>" + strings.Join(w[:6], " ") + " <b>" + strings.Join(w[6:9], " ") + " <i>" + strings.Join(w[9:12], " ") + " <a href=\"/s\">" + strings.Join(w[12:15], " ") + "</a></i></b> " + strings.Join(w[15:18], " ") + " <em>" + strings.Join(w[18:21], " ") + "</em> " + strings.Join(w[21:], " ") + "</p>")
+		}
+		sb.WriteString(strings.Repeat("</div>", maxDepth))
+		checkParsed(fmt.Sprintf("staircase/%d", maxDepth), page(sb.String()))
+	}
+	// (c) inline nesting depth inside the paragraph
+	for _, d := range []int{10, 50, 200, 508, 512, 600} {
+		tags := []string{"b", "i", "em", "span", "u", "strong", "font", "code"}
+		w := govcTok(fmt.Sprintf("in%dw", d), 60)
+		var sb strings.Builder
+		sb.WriteString(filler("ia") + "<p>" + strings.Join(w[:20], " ") + " ")
+		for i := 0; i < d; i++ {
+			sb.WriteString("<" + tags[i%len(tags)] + ">")
+			if i == d/2 {
+				sb.WriteString(strings.Join(w[20:30], " ") + " ")
+			}
+		}
+		sb.WriteString(strings.Join(w[30:40], " "))
+		for i := d - 1; i >= 0; i-- {
+			sb.WriteString("</" + tags[i%len(tags)] + ">")
+		}
+		sb.WriteString(" " + strings.Join(w[40:], " ") + "</p>" + filler("ib"))
+		checkParsed(fmt.Sprintf("inline-depth/%d", d), wrap(sb.String()))
+	}
+	// (d) very long paragraphs
+	for _, n := range []int{2000, 10000} {
+		w := govcTok(fmt.Sprintf("lg%dw", n), n)
+		checkParsed(fmt.Sprintf("long/plain/%d", n), wrap(filler("la")+"<p>"+strings.Join(w, " ")+"</p>"+filler("lb")))
+		var sb strings.Builder
+		sb.WriteString("<p>")
+		for i := 0; i < n; i += 50 {
+			sb.WriteString(strings.Join(w[i:i+40], " ") + " <b>" + strings.Join(w[i+40:i+45], " ") + " <i>" + strings.Join(w[i+45:i+50], " ") + "</i></b> ")
+		}
+		sb.WriteString("</p>")
+		checkParsed(fmt.Sprintf("long/inline/%d", n), wrap(filler("la")+sb.String()+filler("lb")))
+		checkParsed(fmt.Sprintf("long/alone/%d", n), wrap(sb.String()))
+	}
+	// (e) very many inline children
+	for _, n := range []int{500, 3000} {
+		tags := []string{"b", "i", "em", "span", "u", "code", "strong"}
+		w := govcTok(fmt.Sprintf("mc%dw", n), 2*n+2)
+		var same, mixed, links, brs strings.Builder
+		for i := 0; i < n; i++ {
+			tg := tags[i%len(tags)]
+			same.WriteString(w[2*i] + " <b>" + w[2*i+1] + "</b> ")
+			mixed.WriteString(w[2*i] + " <" + tg + ">" + w[2*i+1] + "</" + tg + "> ")
+			if i%10 == 0 {
+				links.WriteString(w[2*i] + " <a href=\"/l\">" + w[2*i+1] + "</a> ")
+			} else {
+				links.WriteString(w[2*i] + " <a href=\"javascript:void(0)\">" + w[2*i+1] + "</a> ")
+			}
+			brs.WriteString(w[2*i] + " " + w[2*i+1] + "<br>")
+		}
+		tail := w[2*n] + " " + w[2*n+1]
+		checkParsed(fmt.Sprintf("children/same/%d", n), wrap(filler("ma")+"<p>"+same.String()+tail+"</p>"+filler("mb")))
+		checkParsed(fmt.Sprintf("children/mixed/%d", n), wrap(filler("ma")+"<p>"+mixed.String()+tail+"</p>"+filler("mb")))
+		checkParsed(fmt.Sprintf("children/js-links/%d", n), wrap(filler("ma")+"<p>"+links.String()+tail+"</p>"+filler("mb")))
+		checkParsed(fmt.Sprintf("children/br/%d", n), wrap(filler("ma")+"<p>"+brs.String()+tail+"</p>"+filler("mb")))
+	}
+	// (f) very many sibling paragraphs
+	for _, n := range []int{300, 2000} {
+		var long, short strings.Builder
+		for i := 0; i < n; i++ {
+			w := govcTok(fmt.Sprintf("sb%dp%04dw", n, i), 40)
+			long.WriteString("<p>" + strings.Join(w[:15], " ") + " <em>" + strings.Join(w[15:20], " ") + " <a href=\"/k\">" + strings.Join(w[20:24], " ") + "</a></em> " + strings.Join(w[24:], " ") + "</p>\n")
+			short.WriteString("<p>" + strings.Join(w[:3], " ") + " <b>" + w[3] + " <i>" + w[4] + "</i></b> " + w[5] + "</p>")
+		}
+		checkParsed(fmt.Sprintf("siblings/long/%d", n), wrap(long.String()))
+		checkParsed(fmt.Sprintf("siblings/short/%d", n), wrap(filler("sa")+short.String()+filler("sb")))
+	}
+	fmt.Printf("GOVC-CASES evaluations=%d distinct_nontrivial=%d rule=%s\n", evals, nontrivial, "12 simple-paragraph shapes (inline children, javascript: anchors, line breaks) x {alone, between paragraphs, after a link list, in a div} + all in one article; 60 unique tokens per paragraph; plus structural extremes: six paragraph shapes (inline children 0-5 levels below the paragraph) at the bottom of chains of 1..1000 wrapper elements (18 depths, every depth from 505 to 516) x 6 wrapper kinds (div, section, span, mixed, ul/li, blockquote); one document with a paragraph at every depth 1..1100; inline nesting 10..600 levels inside the paragraph; paragraphs of 2000 and 10000 words; 500 and 3000 inline children / line breaks in one paragraph; 300 and 2000 sibling paragraphs; the word set of every paragraph is read from the parsed document; non-trivial = a paragraph of the case was kept")
+}
+
+// govcC03DeepParas returns six simple paragraphs (60 unique tokens each) with inline children zero to five
+// levels below the paragraph.
+func govcC03DeepParas(pfx string) string {
+	j := func(w []string) string { return strings.Join(w, " ") }
+	var sb strings.Builder
+	w := govcTok(pfx+"a", 60)
+	sb.WriteString("<p>" + j(w) + "</p>")
+	w = govcTok(pfx+"b", 60)
+	sb.WriteString("<p>" + j(w[:20]) + " <b>" + j(w[20:30]) + "</b> " + j(w[30:40]) + " <a href=\"/x\">" + j(w[40:50]) + "</a> " + j(w[50:]) + "</p>")
+	w = govcTok(pfx+"c", 60)
+	sb.WriteString("<p>" + j(w[:20]) + " <b>" + j(w[20:25]) + " <i>" + j(w[25:35]) + "</i> " + j(w[35:40]) + "</b> " + j(w[40:]) + "</p>")
+	w = govcTok(pfx+"d", 60)
+	sb.WriteString("<p>" + j(w[:20]) + " <em>" + j(w[20:25]) + " <span>" + j(w[25:30]) + " <code>" + j(w[30:40]) + "</code></span></em> " + j(w[40:]) + "</p>")
+	w = govcTok(pfx+"e", 60)
+	sb.WriteString("<p>" + j(w[:20]) + " <strong><a href=\"javascript:go(1)\">" + w[20] + "</a> " + j(w[21:30]) + "</strong><br>" + j(w[30:]) + "</p>")
+	w = govcTok(pfx+"f", 60)
+	sb.WriteString("<p>" + j(w[:10]) + " <b>" + j(w[10:15]) + " <i>" + j(w[15:20]) + " <u>" + j(w[20:25]) + " <font color=red>" + j(w[25:30]) + " <span>" + j(w[30:40]) + "</span></font></u></i></b> " + j(w[40:]) + "</p>")
+	return sb.String()
+}
+
+// govcC03ParsedParas parses the document with the HTML parser and returns its <p> elements with the words of
+// their text nodes.
+func govcC03ParsedParas(doc string) []govcPara {
+	root, err := html.Parse(strings.NewReader(doc))
+	if err != nil {
+		return nil
+	}
+	var ps []govcPara
+	// iterative walk: the documents are up to a few thousand levels deep
+	var cur *govcPara
+	var end *html.Node
+	for n := root; n != nil; {
+		if n.Type == html.ElementNode && n.Data == "p" && cur == nil {
+			ps = append(ps, govcPara{})
+			cur, end = &ps[len(ps)-1], n
+		}
+		if n.Type == html.TextNode && cur != nil {
+			cur.words = append(cur.words, strings.Fields(n.Data)...)
+		}
+		if n.FirstChild != nil {
+			n = n.FirstChild
+			continue
+		}
+		for n != nil && n.NextSibling == nil {
+			if n == end {
+				cur, end = nil, nil
+			}
+			n = n.Parent
+		}
+		if n != nil {
+			if n == end {
+				cur, end = nil, nil
+			}
+			n = n.NextSibling
+		}
+	}
+	var out []govcPara
+	for _, p := range ps {
+		if len(p.words) > 0 {
+			p.name = "p:" + p.words[0]
+			out = append(out, p)
+		}
+	}
+	return out
 }
 
 func minInt(a, b int) int {
@@ -245,10 +431,11 @@ func govcC02SplitGlued(words []string, pos map[string]int, glued *[]string) []st
 func TestGovcExcerptReplay(t *testing.T) {
 	kinds := govcBlocks("k")
 	evals, nontrivial := 0, 0
+	extraHead, htmlAttr, bodyAttr := "", "", "" // set by the cases with document level carriers of non-visible text
 	run := func(key string, blocks []govcBlock) *Result {
 		var body strings.Builder
 		pos := map[string]int{}
-		body.WriteString("<html><head><title>Replay page for excerpts</title></head><body><div id=\"main\"><article>")
+		body.WriteString("<html" + htmlAttr + "><head><title>Replay page for excerpts</title>" + extraHead + "</head><body" + bodyAttr + "><div id=\"main\"><article>")
 		n := 0
 		for _, b := range blocks {
 			body.WriteString(b.html + "\n")
@@ -266,8 +453,9 @@ func TestGovcExcerptReplay(t *testing.T) {
 		}
 		textWords := strings.Fields(res.Text)
 		htmlWords := strings.Fields(govcNodeText(res.Node))
-		if len(textWords) > 0 && !strings.HasPrefix(key, "tab") {
-			nontrivial++ // table cases (keys tab/..., tabx/...) are counted by their own, stricter criterion below
+		attrCase := strings.HasPrefix(key, "attr")
+		if len(textWords) > 0 && !strings.HasPrefix(key, "tab") && !attrCase {
+			nontrivial++ // table cases (keys tab/..., tabx/...) and non-visible text cases (attr/..., attrx/...) are counted by their own, stricter criterion below
 		}
 		if evals <= 2 {
 			fmt.Printf("GOVC-SAMPLE blocks %s -> %d words in Result.Text, %d words in Result.Node\n", key, len(textWords), len(htmlWords))
@@ -275,6 +463,24 @@ func TestGovcExcerptReplay(t *testing.T) {
 		var gluedText, gluedHTML []string
 		govcC02SplitGlued(textWords, pos, &gluedText)
 		govcC02SplitGlued(htmlWords, pos, &gluedHTML)
+		// tokens of non-visible places of the source (attribute values, comments, meta content ...; infix QQH)
+		for _, w := range textWords {
+			if strings.Contains(w, "QQH") {
+				t.Errorf("GOVC-FAIL %s/attr-leak-text :: Result.Text contains the word %q, which occurs in the source only in a non-visible place (attribute value, comment, meta content, script/style/template content), not in its visible text", key, w)
+				break
+			}
+		}
+		for _, w := range htmlWords {
+			if strings.Contains(w, "QQH") {
+				t.Errorf("GOVC-FAIL %s/attr-leak-html :: a text node of Result.Node contains the word %q, which occurs in the source only in a non-visible place (attribute value, comment, meta content, script/style/template content), not in its visible text", key, w)
+				break
+			}
+		}
+		if attrCase {
+			// the cells of a table being glued together is reported by the table cases (tab/..., tabx/...); the
+			// non-visible text cases that sit in a table only check the excerpt property on the words split apart
+			gluedText, gluedHTML = nil, nil
+		}
 		if len(gluedText) > 0 {
 			t.Errorf("GOVC-FAIL %s/text-glue :: Result.Text contains %d word(s) that do not occur in the source but are source words glued together without a separator, e.g. %q", key, len(gluedText), gluedText[0])
 		}
@@ -375,7 +581,344 @@ func TestGovcExcerptReplay(t *testing.T) {
 			runTab(fmt.Sprintf("tabx/%s+%s", b.name, ta.name), []govcBlock{fill[0], b, ta, fill[1]}, ta)
 		}
 	}
-	fmt.Printf("GOVC-CASES evaluations=%d distinct_nontrivial=%d rule=%s\n", evals, nontrivial, fmt.Sprintf("generated articles: every ordered pair of 19 block kinds between plain paragraphs, each kind alone, all kinds together; plus %d table shapes (10 ways of marking up the table: ARIA grid/treegrid/row/gridcell roles, th, thead+tbody+tfoot, caption, summary, none, presentation x 13 cell contents: plain, inline markup, paragraphs, lists, br, rowspan/colspan, hidden span, nested tables in 6 arrangements) x {between paragraphs, alone, two in a row, inside a div with inline text} and 8 of them crossed with every block kind in both orders; unique tokens per block; distinct by construction; Result.Text and text nodes of Result.Node checked; non-trivial = some text was extracted, for table cases: words of the table were extracted (measured: %d table cases emitted a <table> element, %d of them with a nested table)", nTab, asTable, asTableNested))
+	// ---- text in non-visible places (appended; the keys above are unchanged) ----
+	// Every carrier holds unique tokens (infix QQH) in places of the source that are not rendered as text:
+	// attribute values (alt, title, aria-label, placeholder, value, data-*, cite, datetime, href, content of meta
+	// elements ...), comments, script/style/template content. The figure kinds cross the ways a caption can be
+	// absent or present with the ways the image is marked up. run() demands that no QQH token occurs in
+	// Result.Text or in a text node of Result.Node (keys .../attr-leak-text, .../attr-leak-html); attribute values
+	// of the output may keep them. A case is non-trivial when the carrier reached the result (one of its visible
+	// tokens in Result.Text, or its marker - a unique part of its image URL - in an attribute of Result.Node).
+	attrKept, attrInOutputAttr := 0, 0
+	runAttr := func(key string, c govcC02Carrier, blocks []govcBlock) {
+		extraHead, htmlAttr, bodyAttr = c.head, c.htmlAttr, c.bodyAttr
+		res := run(key, blocks)
+		extraHead, htmlAttr, bodyAttr = "", "", ""
+		if res == nil || res.Node == nil {
+			return
+		}
+		kept := false
+		out := map[string]bool{}
+		for _, w := range strings.Fields(res.Text) {
+			out[strings.Trim(w, ".,;:()[]\"'")] = true
+		}
+		for _, w := range c.block.visible {
+			if out[w] {
+				kept = true
+			}
+		}
+		var sb strings.Builder
+		html.Render(&sb, res.Node)
+		if c.marker != "" && strings.Contains(sb.String(), c.marker) {
+			kept = true
+		}
+		if c.head != "" || c.htmlAttr != "" || c.bodyAttr != "" {
+			kept = len(out) > 0 // document level carriers: the document was distilled
+		}
+		if kept {
+			nontrivial++
+			attrKept++
+			if strings.Contains(sb.String(), "QQH") {
+				attrInOutputAttr++
+			}
+		}
+	}
+	nCarriers := len(govcC02Carriers("k"))
+	inner := func(name string, c govcC02Carrier, pre, post string, extraBefore, extraAfter []string) govcBlock {
+		var vis []string
+		vis = append(vis, extraBefore...)
+		vis = append(vis, c.block.visible...)
+		vis = append(vis, extraAfter...)
+		return govcBlock{name, vis, pre + c.block.html + post}
+	}
+	for i := 0; i < nCarriers; i++ {
+		c := govcC02Carriers("ca")[i]
+		fill := govcBlocks("f")
+		runAttr("attr/between/"+c.name, c, []govcBlock{fill[0], c.block, fill[1]})
+		if c.once {
+			continue
+		}
+		runAttr("attr/alone/"+c.name, c, []govcBlock{c.block})
+		runAttr("attr/first/"+c.name, c, []govcBlock{c.block, fill[0], fill[1]})
+		runAttr("attr/last/"+c.name, c, []govcBlock{fill[0], fill[1], c.block})
+		if c.head != "" || c.htmlAttr != "" || c.bodyAttr != "" {
+			continue // document level carriers have no position inside the article
+		}
+		pre, post := govcTok("cc", 12), govcTok("cd", 12)
+		runAttr("attr/in-div/"+c.name, c, []govcBlock{fill[0], inner("div+"+c.name, c, "<div>"+strings.Join(pre[:8], " ")+" <em>"+strings.Join(pre[8:], " ")+"</em>", strings.Join(post, " ")+"</div>", pre, post), fill[1]})
+		runAttr("attr/in-section/"+c.name, c, []govcBlock{fill[0], inner("section+"+c.name, c, "<section title=\"caQQHsect001 caQQHsect002\" aria-label=\"caQQHsect003\"><h2>"+strings.Join(pre[:4], " ")+"</h2><p>"+strings.Join(pre[4:], " ")+"</p>", "<p>"+strings.Join(post, " ")+"</p></section>", pre, post), fill[1]})
+		runAttr("attr/in-blockquote/"+c.name, c, []govcBlock{fill[0], inner("bq+"+c.name, c, "<blockquote cite=\"/q/caQQHcite001\"><p>"+strings.Join(pre, " ")+"</p>", "<p>"+strings.Join(post, " ")+"</p></blockquote>", pre, post), fill[1]})
+		runAttr("attr/in-li/"+c.name, c, []govcBlock{fill[0], inner("li+"+c.name, c, "<ul><li>"+strings.Join(pre, " ")+"</li><li>", "</li><li>"+strings.Join(post, " ")+"</li></ul>", pre, post), fill[1]})
+		runAttr("attr/in-td/"+c.name, c, []govcBlock{fill[0], inner("td+"+c.name, c, "<table><thead><tr><th>"+pre[0]+"</th><th>"+pre[1]+"</th></tr></thead><tbody><tr><td>"+pre[2]+"</td><td>"+pre[3]+"</td></tr><tr><td>"+pre[4]+"</td><td>", "</td></tr><tr><td>"+post[0]+"</td><td>"+post[1]+"</td></tr></tbody></table>", pre[:5], post[:2]), fill[1]})
+	}
+	// the figure and image carriers crossed with every block kind, in both orders
+	for i := 0; i < nCarriers; i++ {
+		if c := govcC02Carriers("k")[i]; !c.cross {
+			continue
+		}
+		for k := range kinds {
+			c := govcC02Carriers("ca")[i]
+			b := govcBlocks("b")[k]
+			fill := govcBlocks("f")
+			runAttr(fmt.Sprintf("attrx/%s+%s", c.name, b.name), c, []govcBlock{fill[0], c.block, b, fill[1]})
+			runAttr(fmt.Sprintf("attrx/%s+%s", b.name, c.name), c, []govcBlock{fill[0], b, c.block, fill[1]})
+		}
+	}
+	fmt.Printf("GOVC-CASES evaluations=%d distinct_nontrivial=%d rule=%s\n", evals, nontrivial, fmt.Sprintf("generated articles: every ordered pair of 19 block kinds between plain paragraphs, each kind alone, all kinds together; plus %d table shapes (10 ways of marking up the table: ARIA grid/treegrid/row/gridcell roles, th, thead+tbody+tfoot, caption, summary, none, presentation x 13 cell contents: plain, inline markup, paragraphs, lists, br, rowspan/colspan, hidden span, nested tables in 6 arrangements) x {between paragraphs, alone, two in a row, inside a div with inline text} and 8 of them crossed with every block kind in both orders; plus %d carriers of text in non-visible places (figures: 9 caption kinds none/empty/white space/nbsp/comment/hidden/text/text+link/link only x 5 image markups img alt, img alt+title, picture, linked img, img+aria; images with alt/title in paragraphs, links, divs, list items, table cells; title/aria-label/data-*/cite/datetime/href/value/placeholder attributes on inline, block, table and form elements; meta content, html/body attributes, comments, script/style/template content) x {between, alone, first, last, in a div, section, blockquote, list item, table cell}, figure and image carriers also crossed with every block kind in both orders; unique tokens per block; distinct by construction; Result.Text and text nodes of Result.Node checked; non-trivial = some text was extracted, for table cases: words of the table were extracted (measured: %d table cases emitted a <table> element, %d of them with a nested table), for non-visible text cases: the carrier reached the result (measured: %d cases, in %d of them an attribute of Result.Node still holds the non-visible tokens)", nTab, nCarriers, asTable, asTableNested, attrKept, attrInOutputAttr))
+}
+
+// govcC02Carrier is a block that carries tokens (infix QQH) in non-visible places of the source.
+type govcC02Carrier struct {
+	name                     string
+	block                    govcBlock
+	head, htmlAttr, bodyAttr string // document level carriers: extra <head> content, attributes of <html> / <body>
+	marker                   string // unique part of an attribute value that proves that the carrier reached Result.Node
+	cross                    bool   // also crossed with every block kind
+	once                     bool   // only placed between paragraphs (a carrier that fails on the unchanged tree: one key per finding)
+}
+
+func govcC02Carriers(pfx string) []govcC02Carrier {
+	nv, nh := 0, 0
+	var vis []string
+	v := func(k int) string { // k visible tokens
+		var r []string
+		for i := 0; i < k; i++ {
+			x := fmt.Sprintf("%sV%04d", pfx, nv)
+			nv++
+			r = append(r, x)
+			vis = append(vis, x)
+		}
+		return strings.Join(r, " ")
+	}
+	h := func(tag string, k int) string { // k tokens for a non-visible place
+		var r []string
+		for i := 0; i < k; i++ {
+			r = append(r, fmt.Sprintf("%sQQH%s%04d", pfx, tag, nh))
+			nh++
+		}
+		return strings.Join(r, " ")
+	}
+	var cs []govcC02Carrier
+	imgN := 0
+	src := func() (string, string) { // a fresh image URL and its marker
+		imgN++
+		m := fmt.Sprintf("%simg%03d", pfx, imgN)
+		return "/img/" + m + ".png", m
+	}
+	add := func(name string, cross bool, build func() (string, string)) {
+		vis = nil
+		html, marker := build()
+		cs = append(cs, govcC02Carrier{name: name, block: govcBlock{name, vis, html}, marker: marker, cross: cross})
+	}
+
+	// figure kinds: caption kind x image markup
+	type capKind struct {
+		name  string
+		build func() string
+	}
+	caps := []capKind{
+		{"nocap", func() string { return "" }},
+		{"emptycap", func() string { return "<figcaption></figcaption>" }},
+		{"wscap", func() string { return "<figcaption> \n\t </figcaption>" }},
+		{"nbspcap", func() string { return "<figcaption>&nbsp; </figcaption>" }},
+		{"commentcap", func() string { return "<figcaption><!-- " + h("capcomment", 2) + " --></figcaption>" }},
+		{"hiddencap", func() string {
+			return "<figcaption title=\"" + h("captitle", 2) + "\"><span style=\"display:none\">" + h("caphidden", 2) + "</span></figcaption>"
+		}},
+		{"cap", func() string { return "<figcaption title=\"" + h("captitle", 2) + "\">" + v(6) + "</figcaption>" }},
+		{"caplink", func() string {
+			return "<figcaption>" + v(3) + " <a href=\"/credit/" + h("caphref", 1) + "\" title=\"" + h("capatitle", 2) + "\">" + v(3) + "</a></figcaption>"
+		}},
+		{"linkonlycap", func() string {
+			return "<figcaption><a href=\"/credit\" title=\"" + h("capatitle", 2) + "\" aria-label=\"" + h("capalabel", 2) + "\"></a></figcaption>"
+		}},
+	}
+	type imgKind struct {
+		name  string
+		build func() (string, string)
+	}
+	imgs := []imgKind{
+		{"img-alt", func() (string, string) {
+			s, m := src()
+			return "<img src=\"" + s + "\" width=600 height=400 alt=\"" + h("alt", 3) + "\">", m
+		}},
+		{"img-alt-title", func() (string, string) {
+			s, m := src()
+			return "<img src=\"" + s + "\" width=600 height=400 alt=\"" + h("alt", 3) + "\" title=\"" + h("title", 3) + "\" longdesc=\"/desc/" + h("longdesc", 1) + "\" data-caption=\"" + h("datacaption", 3) + "\">", m
+		}},
+		{"picture", func() (string, string) {
+			s, m := src()
+			return "<picture><source srcset=\"" + s + ".webp\" type=\"image/webp\" title=\"" + h("sourcetitle", 2) + "\"><img src=\"" + s + "\" width=600 height=400 alt=\"" + h("alt", 3) + "\"></picture>", m
+		}},
+		{"linked-img", func() (string, string) {
+			s, m := src()
+			return "<a href=\"/full/" + h("href", 1) + "\" title=\"" + h("atitle", 3) + "\"><img src=\"" + s + "\" width=600 height=400 alt=\"" + h("alt", 3) + "\"></a>", m
+		}},
+		{"img-aria", func() (string, string) {
+			s, m := src()
+			return "<img src=\"" + s + "\" width=600 height=400 alt=\"" + h("alt", 2) + "\" aria-label=\"" + h("arialabel", 3) + "\" aria-description=\"" + h("ariadesc", 3) + "\">", m
+		}},
+	}
+	for _, ck := range caps {
+		for _, ik := range imgs {
+			ck, ik := ck, ik
+			add("fig-"+ck.name+"/"+ik.name, ik.name == "img-alt" || (ck.name == "nocap" && ik.name == "picture"), func() (string, string) {
+				im, m := ik.build()
+				return "<figure title=\"" + h("figtitle", 2) + "\" aria-label=\"" + h("figlabel", 2) + "\">" + im + ck.build() + "</figure>", m
+			})
+		}
+	}
+
+	// images outside figures
+	fullImg := func() (string, string) {
+		s, m := src()
+		return "<img src=\"" + s + "\" width=600 height=400 alt=\"" + h("alt", 3) + "\" title=\"" + h("title", 3) + "\" aria-label=\"" + h("arialabel", 2) + "\" data-credit=\"" + h("datacredit", 2) + "\">", m
+	}
+	add("img-block", true, fullImg)
+	add("img-in-para", true, func() (string, string) {
+		im, m := fullImg()
+		return "<p>" + v(20) + " " + im + " " + v(20) + "</p>", m
+	})
+	add("img-in-para-first", false, func() (string, string) {
+		im, m := fullImg()
+		return "<p>" + im + v(40) + "</p>", m
+	})
+	add("img-linked-in-para", false, func() (string, string) {
+		im, m := fullImg()
+		return "<p>" + v(20) + " <a href=\"/full/" + h("href", 1) + "\" title=\"" + h("atitle", 3) + "\">" + im + "</a> " + v(20) + "</p>", m
+	})
+	add("img-in-div", false, func() (string, string) {
+		im, m := fullImg()
+		return "<div class=\"photo\" title=\"" + h("divtitle", 2) + "\" data-caption=\"" + h("datacaption", 3) + "\">" + im + "</div>", m
+	})
+	add("img-in-div-text", false, func() (string, string) {
+		im, m := fullImg()
+		return "<div>" + v(15) + im + v(15) + "</div>", m
+	})
+	add("img-in-li", false, func() (string, string) {
+		im, m := fullImg()
+		return "<ul><li>" + v(15) + "</li><li>" + im + " " + v(15) + "</li><li>" + v(15) + "</li></ul>", m
+	})
+	add("img-in-data-table", true, func() (string, string) {
+		im, m := fullImg()
+		return "<table summary=\"" + h("summary", 3) + "\" title=\"" + h("tabletitle", 2) + "\"><caption>" + v(2) + "</caption><thead><tr><th abbr=\"" + h("thabbr", 1) + "\">" + v(1) + "</th><th>" + v(1) + "</th></tr></thead><tbody><tr><td>" + v(1) + "</td><td title=\"" + h("tdtitle", 2) + "\">" + im + "</td></tr><tr><td headers=\"" + h("headers", 1) + "\">" + v(1) + "</td><td>" + v(1) + " " + func() string { i2, _ := fullImg(); return i2 }() + " " + v(1) + "</td></tr></tbody></table>", m
+	})
+	add("img-in-layout-table", false, func() (string, string) {
+		im, m := fullImg()
+		return "<table><tr><td><p>" + v(20) + "</p></td><td>" + im + "<p>" + v(20) + "</p></td></tr></table>", m
+	})
+	add("img-srcset", false, func() (string, string) {
+		s, m := src()
+		return "<img src=\"" + s + "\" srcset=\"" + s + "?w=1 1x, " + s + "?w=2 2x\" sizes=\"100vw\" width=600 height=400 alt=\"" + h("alt", 3) + "\" title=\"" + h("title", 2) + "\">", m
+	})
+	add("picture-block", false, func() (string, string) {
+		s, m := src()
+		return "<picture title=\"" + h("picturetitle", 2) + "\"><source srcset=\"" + s + ".webp\" media=\"(min-width: 600px)\"><img src=\"" + s + "\" width=600 height=400 alt=\"" + h("alt", 3) + "\" title=\"" + h("title", 2) + "\"></picture>", m
+	})
+	add("img-lazy", false, func() (string, string) {
+		s, m := src()
+		return "<img data-src=\"" + s + "\" width=600 height=400 alt=\"" + h("alt", 3) + "\" data-title=\"" + h("datatitle", 2) + "\">", m
+	})
+	add("video-poster", false, func() (string, string) {
+		s, m := src()
+		return "<video poster=\"" + s + "\" width=640 height=360 controls title=\"" + h("videotitle", 2) + "\" aria-label=\"" + h("videolabel", 2) + "\"><source src=\"/clip/" + m + ".mp4\" type=\"video/mp4\"><track src=\"/clip/" + m + ".vtt\" kind=\"subtitles\" label=\"" + h("tracklabel", 2) + "\"></video>", m
+	})
+	add("youtube-title", false, func() (string, string) {
+		return "<iframe src=\"https://www.youtube.com/embed/abc123XYZ_9\" width=560 height=315 title=\"" + h("iframetitle", 3) + "\" name=\"" + h("iframename", 1) + "\"></iframe>", "abc123XYZ_9"
+	})
+
+	// attributes of inline elements inside a paragraph
+	inl := func(name, open, close string) {
+		add("inline-"+name, false, func() (string, string) {
+			return "<p>" + v(18) + " " + open + v(4) + close + " " + v(18) + "</p>", ""
+		})
+	}
+	inl("a-title", "<a href=\"/t\" title=\""+h("atitle", 3)+"\">", "</a>")
+	inl("a-aria", "<a href=\"/t\" aria-label=\""+h("alabel", 3)+"\" aria-description=\""+h("adesc", 2)+"\">", "</a>")
+	inl("a-href-words", "<a href=\"/t/"+h("hrefpath", 1)+"?q="+h("hrefquery", 1)+"#"+h("hreffrag", 1)+"\" download=\""+h("download", 1)+"\" rel=\""+h("rel", 1)+"\" data-track=\""+h("datatrack", 2)+"\">", "</a>")
+	inl("a-js-title", "<a href=\"javascript:void(0)\" title=\""+h("atitle", 3)+"\" onclick=\"open('"+h("onclick", 1)+"')\">", "</a>")
+	inl("abbr-title", "<abbr title=\""+h("abbrtitle", 3)+"\">", "</abbr>")
+	inl("acronym-dfn-title", "<dfn title=\""+h("dfntitle", 2)+"\"><acronym title=\""+h("acronymtitle", 2)+"\">", "</acronym></dfn>")
+	inl("span-title", "<span title=\""+h("spantitle", 3)+"\">", "</span>")
+	inl("span-aria", "<span role=\"img\" aria-label=\""+h("spanlabel", 3)+"\" aria-describedby=\""+h("describedby", 1)+"\">", "</span>")
+	inl("span-data", "<span data-tooltip=\""+h("datatooltip", 3)+"\" data-content=\""+h("datacontent", 2)+"\" data-original-title=\""+h("dataoriginaltitle", 2)+"\">", "</span>")
+	inl("span-class-id", "<span class=\""+h("class", 2)+"\" id=\""+h("id", 1)+"\" lang=\"en\">", "</span>")
+	inl("b-i-title", "<b title=\""+h("btitle", 2)+"\"><i title=\""+h("ititle", 2)+"\">", "</i></b>")
+	inl("em-strong-title", "<em title=\""+h("emtitle", 2)+"\"><strong aria-label=\""+h("stronglabel", 2)+"\">", "</strong></em>")
+	inl("font-face", "<font face=\""+h("fontface", 2)+"\" title=\""+h("fonttitle", 2)+"\">", "</font>")
+	inl("code-data", "<code data-lang=\""+h("datalang", 1)+"\" title=\""+h("codetitle", 2)+"\">", "</code>")
+	inl("time-datetime", "<time datetime=\""+h("datetime", 1)+"\" title=\""+h("timetitle", 2)+"\">", "</time>")
+	inl("data-value", "<data value=\""+h("datavalue", 1)+"\">", "</data>")
+	inl("q-cite", "<q cite=\"/src/"+h("qcite", 1)+"\">", "</q>")
+	inl("ins-del-cite", "<ins cite=\"/rev/"+h("inscite", 1)+"\" datetime=\""+h("insdatetime", 1)+"\">", "</ins>")
+	inl("u-sub-title", "<u title=\""+h("utitle", 2)+"\"><sub title=\""+h("subtitle", 2)+"\">", "</sub></u>")
+
+	// attributes of block elements
+	add("p-attrs", false, func() (string, string) {
+		return "<p title=\"" + h("ptitle", 3) + "\" aria-label=\"" + h("plabel", 3) + "\" data-note=\"" + h("datanote", 3) + "\" id=\"" + h("id", 1) + "\" class=\"" + h("class", 2) + "\">" + v(40) + "</p>", ""
+	})
+	add("div-attrs", false, func() (string, string) {
+		return "<div title=\"" + h("divtitle", 3) + "\" aria-label=\"" + h("divlabel", 3) + "\" data-summary=\"" + h("datasummary", 3) + "\" itemprop=\"" + h("itemprop", 1) + "\"><p>" + v(20) + "</p><p>" + v(20) + "</p></div>", ""
+	})
+	add("heading-attrs", false, func() (string, string) {
+		return "<h2 id=\"" + h("id", 1) + "\" title=\"" + h("h2title", 3) + "\" aria-label=\"" + h("h2label", 2) + "\">" + v(6) + "</h2><p>" + v(30) + "</p>", ""
+	})
+	add("blockquote-cite", false, func() (string, string) {
+		return "<blockquote cite=\"/speech/" + h("cite", 1) + "\" title=\"" + h("bqtitle", 3) + "\"><p>" + v(20) + "</p><p>" + v(20) + "</p></blockquote>", ""
+	})
+	add("list-attrs", false, func() (string, string) {
+		return "<ol title=\"" + h("oltitle", 2) + "\" aria-label=\"" + h("ollabel", 2) + "\" start=\"3\"><li value=\"7\" title=\"" + h("lititle", 2) + "\">" + v(15) + "</li><li data-note=\"" + h("datanote", 2) + "\">" + v(15) + "</li><li aria-label=\"" + h("lilabel", 2) + "\">" + v(15) + "</li></ol>", ""
+	})
+	add("pre-attrs", false, func() (string, string) {
+		return "<pre title=\"" + h("pretitle", 2) + "\" data-lang=\"" + h("datalang", 1) + "\">" + v(15) + "\n" + v(15) + "</pre>", ""
+	})
+	add("table-attrs", false, func() (string, string) {
+		return "<table summary=\"" + h("summary", 3) + "\" title=\"" + h("tabletitle", 2) + "\" aria-label=\"" + h("tablelabel", 2) + "\"><caption title=\"" + h("captiontitle", 2) + "\">" + v(2) + "</caption><thead><tr title=\"" + h("trtitle", 1) + "\"><th abbr=\"" + h("thabbr", 1) + "\" scope=\"col\" title=\"" + h("thtitle", 2) + "\">" + v(1) + "</th><th aria-label=\"" + h("thlabel", 2) + "\">" + v(1) + "</th></tr></thead><tbody><tr><td headers=\"" + h("headers", 1) + "\" title=\"" + h("tdtitle", 2) + "\">" + v(1) + "</td><td data-sort=\"" + h("datasort", 1) + "\" aria-label=\"" + h("tdlabel", 2) + "\">" + v(1) + " <b title=\"" + h("btitle", 1) + "\">" + v(1) + "</b></td></tr><tr><td>" + v(1) + "</td><td>" + v(2) + "</td></tr></tbody></table>", ""
+	})
+	add("layout-table-attrs", false, func() (string, string) {
+		return "<table title=\"" + h("tabletitle", 2) + "\"><tr><td title=\"" + h("tdtitle", 2) + "\" data-col=\"" + h("datacol", 1) + "\"><p>" + v(20) + "</p></td><td aria-label=\"" + h("tdlabel", 2) + "\"><p>" + v(20) + "</p></td></tr></table>", ""
+	})
+
+	// form controls: the words of value / placeholder / label attributes are not words of the article
+	add("input-text", false, func() (string, string) {
+		return "<p>" + v(20) + " <input type=\"text\" name=\"" + h("inputname", 1) + "\" value=\"" + h("inputvalue", 3) + "\" placeholder=\"" + h("placeholder", 3) + "\" title=\"" + h("inputtitle", 2) + "\" aria-label=\"" + h("inputlabel", 2) + "\"> " + v(20) + "</p>", ""
+	})
+	add("input-hidden-search", false, func() (string, string) {
+		return "<p>" + v(20) + " <input type=\"hidden\" value=\"" + h("hiddenvalue", 3) + "\"><input type=\"search\" placeholder=\"" + h("placeholder", 3) + "\"> " + v(20) + "</p>", ""
+	})
+	add("form-controls", false, func() (string, string) {
+		return "<p>" + v(20) + "</p><form action=\"/subscribe/" + h("action", 1) + "\" name=\"" + h("formname", 1) + "\" aria-label=\"" + h("formlabel", 2) + "\"><input type=\"email\" placeholder=\"" + h("placeholder", 3) + "\" value=\"" + h("inputvalue", 2) + "\"><textarea placeholder=\"" + h("textareaplaceholder", 3) + "\" title=\"" + h("textareatitle", 2) + "\"></textarea><input type=\"image\" src=\"/img/go.png\" alt=\"" + h("inputalt", 2) + "\"></form><p>" + v(20) + "</p>", ""
+	})
+	add("progress-meter", false, func() (string, string) {
+		return "<p>" + v(20) + " <progress value=\"3\" max=\"9\" title=\"" + h("progresstitle", 2) + "\" aria-label=\"" + h("progresslabel", 2) + "\"></progress> <meter value=\"2\" title=\"" + h("metertitle", 2) + "\"></meter> " + v(20) + "</p>", ""
+	})
+
+	// comments, script, style and template content inside the article
+	add("comment-in-para", false, func() (string, string) {
+		return "<p>" + v(20) + " <!-- " + h("comment", 3) + " --> " + v(20) + "</p><!-- " + h("comment", 3) + " -->", ""
+	})
+	add("script-json-style", false, func() (string, string) {
+		return "<p>" + v(20) + "</p><script type=\"application/ld+json\">{\"caption\":\"" + h("jsonld", 3) + "\"}</script><style>p:after{content:\"" + h("csscontent", 2) + "\"}</style><p>" + v(20) + "</p>", ""
+	})
+	add("template-content", false, func() (string, string) {
+		return "<p>" + v(20) + "</p><template><p>" + h("template", 4) + "</p></template><p>" + v(20) + "</p>", ""
+	})
+
+	cs[len(cs)-1].once = true // on the unchanged tree the content of <template> is emitted as text
+
+	// document level carriers: meta content, link titles, attributes of html and body
+	doc := func(name string, head, htmlAttr, bodyAttr string) {
+		vis = nil
+		html := "<p>" + v(40) + "</p>"
+		cs = append(cs, govcC02Carrier{name: name, block: govcBlock{name, vis, html}, head: head, htmlAttr: htmlAttr, bodyAttr: bodyAttr})
+	}
+	doc("meta-description", "<meta name=\"description\" content=\""+h("metadescription", 5)+"\"><meta name=\"keywords\" content=\""+h("metakeywords", 3)+"\"><meta name=\"author\" content=\""+h("metaauthor", 2)+"\">", "", "")
+	doc("meta-og", "<meta property=\"og:description\" content=\""+h("ogdescription", 5)+"\"><meta property=\"og:image\" content=\"/img/"+h("ogimage", 1)+".png\"><meta property=\"og:image:alt\" content=\""+h("ogimagealt", 3)+"\"><meta property=\"og:site_name\" content=\""+h("ogsite", 2)+"\"><meta property=\"og:type\" content=\"article\">", "", "")
+	doc("meta-twitter", "<meta name=\"twitter:description\" content=\""+h("twdescription", 5)+"\"><meta name=\"twitter:image:alt\" content=\""+h("twimagealt", 3)+"\"><meta name=\"twitter:card\" content=\"summary\">", "", "")
+	doc("link-title", "<link rel=\"alternate\" type=\"application/rss+xml\" title=\""+h("linktitle", 3)+"\" href=\"/feed/"+h("linkhref", 1)+"\"><link rel=\"stylesheet\" href=\"/s.css\" title=\""+h("csstitle", 2)+"\">", "", "")
+	doc("head-script-style", "<script type=\"application/ld+json\">{\"@type\":\"Article\",\"description\":\""+h("jsonld", 4)+"\"}</script><style>body:before{content:\""+h("csscontent", 2)+"\"}</style>", "", "")
+	doc("html-body-attrs", "", " lang=\"en\" data-theme=\""+h("datatheme", 2)+"\" title=\""+h("htmltitle", 2)+"\"", " title=\""+h("bodytitle", 2)+"\" aria-label=\""+h("bodylabel", 2)+"\" data-page=\""+h("datapage", 2)+"\" class=\""+h("class", 2)+"\"")
+	return cs
 }
 
 func govcC02HasElement(n *html.Node, tag string) bool {
